@@ -115,6 +115,29 @@ theorem evalM_RH {read : Nat → St → Res Fetched} (hR : ReadSpec P env read)
     split at h
     · exact iha s v hs s' hI h
     · exact ihb s v hs s' hI h
+  | gate g a ihg iha =>
+    intro s v hs s' hI h
+    simp only [evalM] at h
+    cases hg : evalM env read g s with
+    | error e => rw [hg] at h; cases h
+    | ok r =>
+      obtain ⟨x, h1, s1⟩ := r
+      rw [hg] at h
+      simp only at h
+      split at h
+      · cases ha : evalM env read a s1 with
+        | error e => rw [ha] at h; cases h
+        | ok r2 =>
+          obtain ⟨y, h2, s2⟩ := r2
+          rw [ha] at h
+          injection h with h; injection h with e1 h; injection h with e2 e3
+          subst e3
+          obtain ⟨hI1, _, _, _⟩ := evalM_spec P env hR g s x h1 s1 hI hg
+          obtain ⟨_, hst2, hE2, _⟩ := evalM_spec P env hR a s1 y h2 s2 hI1 ha
+          exact (ihg s x h1 s1 hI hg).trans (iha s1 y h2 s2 hI1 ha) hst2 hE2
+      · injection h with h; injection h with e1 h; injection h with e2 e3
+        subst e3
+        exact ihg s x h1 s1 hI hg
 
 theorem RH_stCached {s s1 : St} {j : Nat} (rest : List Nat) (v' : Nat) (hs' : List Nat)
     (hst : s1.stack = j :: rest) (h : RH s s1) : RH s (stCached s1 j v' hs') := by
@@ -135,77 +158,6 @@ theorem RH_stCached {s s1 : St} {j : Nat} (rest : List Nat) (v' : Nat) (hs' : Li
     by_cases hcj : c = j
     · subst hcj; rw [cval_cons_self]; exact fun h => nomatch h
     · rw [cval_cons_subst_ne s1 j v' hs' hcj]; exact h
-
-/-- the head loop as `execute` starts it (`outer = false`). -/
-theorem loop_RH (hNF : NoFallback P) {read : Nat → St → Res Fetched}
-    (hR : ReadSpec P env read) (hH : ReadRH P env read) (j : Nat) (rest : List Nat)
-    (fuel stamp : Nat) (s : St) (v : Nat) (hs : List Nat) (s' : St)
-    (hI : Inv P env s) (hst : s.stack = j :: rest)
-    (h : executeMaybeIterate P env read j false (fuel + 1) stamp s = .ok (v, hs, s')) :
-    RH s s' ∧ (cval s' j = none → s'.prov = [] ∧ s'.cache = []) := by
-  cases hev : evalM env read (P.node j).body s with
-  | error e => rw [emi_body_error P env read j false fuel stamp s hev] at h; cases h
-  | ok r =>
-    obtain ⟨v1, hs1, s1⟩ := r
-    obtain ⟨hI1, hst1, hE1, hrel⟩ := evalM_spec P env hR _ s v1 hs1 s1 hI hev
-    have hst1' : s1.stack = j :: rest := hst1.trans hst
-    have hRH1 := evalM_RH P env hR hH _ s v1 hs1 s1 hI hev
-    cases hl : s1.prov.lookup j with
-    | none =>
-      cases hb : belowOf false s1 with
-      | true =>
-        rw [emi_part P env read j false fuel stamp s hev hl hb] at h
-        injection h with h; injection h with e1 h; injection h with e2 e3
-        subst e3
-        refine ⟨RH_stCached rest _ _ hst1' hRH1, ?_⟩
-        intro hn; rw [cval_cons_self] at hn; cases hn
-      | false =>
-        rw [emi_final P env read j false fuel stamp s hev hl hb] at h
-        injection h with h; injection h with e1 h; injection h with e2 e3
-        subst e3
-        rw [belowOf_false] at hb
-        have hno : ¬ HeadOn s1 := by
-          intro ⟨k, hk, hp⟩
-          rw [hst1'] at hk
-          cases hk with
-          | head => simp [isHead, hl] at hp
-          | tail _ hk =>
-            have : s1.stack.tail.any (isHead s1.prov) = true :=
-              (below_iff s1).mpr ⟨k, by rw [hst1']; exact hk, hp⟩
-            rw [hb] at this; cases this
-        obtain ⟨hc0, hp0⟩ := hI1.empty hno
-        exact ⟨RH_of_prov_nil hp0, fun _ => ⟨hp0, hc0⟩⟩
-    | some last =>
-      cases hb : belowOf false s1 with
-      | true =>
-        rw [emi_nested P env read j false fuel stamp s hev hl hb] at h
-        injection h with h; injection h with e1 h; injection h with e2 e3
-        subst e3
-        refine ⟨RH_stCached rest _ _ hst1' hRH1, ?_⟩
-        intro hn; rw [cval_cons_self] at hn; cases hn
-      | false =>
-        cases hc : converged (cache1Of s1 j (cycleFn P j last v1)) s1.prov with
-        | true =>
-          rw [emi_conv P env read j false fuel stamp s hev hl hb hc] at h
-          injection h with h; injection h with e1 h; injection h with e2 e3
-          subst e3
-          exact ⟨RH_of_prov_nil rfl, fun _ => ⟨rfl, rfl⟩⟩
-        | false =>
-          cases hi : SalsaVerif.Gen.Stamp.IterationStamp.increment_iteration stamp with
-          | none =>
-            rw [emi_too P env read j false fuel stamp s hev hl hb hc hi] at h
-            cases h
-          | some stamp' =>
-            rw [emi_iter P env read j false fuel stamp s hev hl hb hc hi] at h
-            have hv1 : le v1 (lfp P env j) := by
-              rw [← lfp_step]
-              exact EvalRel.upper (fun c w hw => hI1.avail_le P env hw) hrel
-            have hnew : le (cycleFn P j last v1) (lfp P env j) :=
-              (cycleFn_bounds hNF j last v1).2 _ hv1 (hI1.provLe j last hl)
-            obtain ⟨hp, hc', _⟩ := loop_outer_spec P env hNF hR j rest fuel stamp' _ v hs s'
-              (iterate_inv P env s1 j rest _ hI1 hst1' hnew (by rw [hl]; rfl)) hst1'
-              (isHead_stIter s1 j _ (by rw [hl]; rfl)) h
-            exact ⟨RH_of_prov_nil hp, fun _ => ⟨hp, hc'⟩⟩
 
 theorem fetch_RH {exec : Nat → St → Res Fetched} (hX : ExecRH P env exec) :
     ReadRH P env (fetch P exec) := by
@@ -250,17 +202,6 @@ theorem fetch_RH {exec : Nat → St → Res Fetched} (hX : ExecRH P env exec) :
         | none =>
           rw [fetch_exec P exec c s hp hf hst hc] at h
           exact (hX c s v hs s' hI (by simpa using hst) hf hc h).1
-
-theorem execute_RH (hNF : NoFallback P) : ∀ d, ExecRH P env (execute P env d) := by
-  intro d
-  induction d with
-  | zero => intro j s v hs s' _ _ _ _ h; simp [execute] at h
-  | succ d ih =>
-    intro j s v hs s' hI hj hf hc h
-    unfold execute at h
-    exact loop_RH P env hNF (fetch_spec P env hNF (execute_spec P env hNF d))
-      (fetch_RH P env ih) j s.stack SalsaVerif.Gen.Stamp.MAX_ITERATIONS _
-      { s with stack := j :: s.stack } v hs s' (inv_push P env hI hj hf hc) rfl h
 
 end
 
